@@ -8,6 +8,7 @@ import (
 	"sync"
 	"sync/atomic"
 	"time"
+	"verifharness/fakenode"
 
 	"github.com/gocql/gocql"
 
@@ -45,6 +46,7 @@ func init() {
 				{Name: "random-schedules", Variant: "plain", Cases: nr, Run: c08random, CaseTimeout: 10 * time.Minute, Required: []string{"schedules"}},
 				{Name: "threads", Variant: "race", Cases: ns, Run: c08threads, CaseTimeout: 10 * time.Minute, Required: []string{"thread_ops"}},
 				{Name: "sweep", Variant: "plain", Cases: 8, Shards: 4, Run: c08sweep, Required: []string{"sweep_ids"}},
+				{Name: "wire", Variant: "race", Cases: 8, Run: c08wire, CaseTimeout: 2 * time.Minute, Required: []string{"wire_exhaustions", "wire_requests_parked", "wire_requests_refused_while_full"}},
 				{Name: "long-history", Variant: "plain", Cases: 2, Shards: 2, Run: c08longHistory, CaseTimeout: 40 * time.Minute, Required: []string{"long_history_calls"}},
 			}
 		},
@@ -644,4 +646,103 @@ func c08longHistory(c *runner.Ctx, i int) {
 	}
 	c.Add("long_history_calls", int64(total))
 	c.Eval(runner.H("long-history", proto), true)
+}
+
+// c08wire: the ids as they appear on a real connection that runs out of them. Every stream id of a protocol 1/2
+// connection (127 usable) is parked on a request the node does not answer yet; further requests are refused
+// locally; the node never sees id 0, an id out of range or an id that is still waiting for its answer.
+func c08wire(c *runner.Ctx, i int) {
+	version := 1 + i%2
+	cl := fakenode.NewCluster(1)
+	var mu sync.Mutex
+	var held []*fakenode.Req
+	var heldConn []*fakenode.ServerConn
+	var problems []string
+	inflight := map[*fakenode.ServerConn]map[int]bool{}
+	cl.Nodes[0].Handler = func(sc *fakenode.ServerConn, req *fakenode.Req) {
+		st := int(req.Header.Stream)
+		mu.Lock()
+		if inflight[sc] == nil {
+			inflight[sc] = map[int]bool{}
+		}
+		switch {
+		case st == 0:
+			problems = append(problems, fmt.Sprintf("a request (%q) arrived on stream id 0", req.Statement))
+		case st < 0 || st > 127:
+			problems = append(problems, fmt.Sprintf("a request (%q) arrived on stream id %d (valid 1..127)", req.Statement, st))
+		case inflight[sc][st]:
+			problems = append(problems, fmt.Sprintf("a request (%q) arrived on stream id %d while the previous request on that id is still unanswered", req.Statement, st))
+		}
+		if strings.HasPrefix(req.Statement, "HOLD") {
+			inflight[sc][st] = true
+			held = append(held, req)
+			heldConn = append(heldConn, sc)
+			mu.Unlock()
+			return
+		}
+		mu.Unlock()
+		sc.ReplyVoid(req)
+	}
+	cfg := newCfg(cl, version)
+	cfg.NumConns = 1
+	cfg.Timeout = 20 * time.Second
+	sess, err := cfg.CreateSession()
+	if err != nil {
+		c.Inconclusive("c08-wire-session", err.Error())
+		return
+	}
+	defer sess.Close()
+	var wg sync.WaitGroup
+	var okN, failN int64
+	for k := 0; k < 127; k++ {
+		wg.Add(1)
+		go func(k int) {
+			defer wg.Done()
+			if err := sess.Query(fmt.Sprintf("HOLD %d", k)).Exec(); err == nil {
+				atomic.AddInt64(&okN, 1)
+			} else {
+				atomic.AddInt64(&failN, 1)
+			}
+		}(k)
+	}
+	parked := 0
+	for w := 0; w < 2000; w++ {
+		mu.Lock()
+		parked = len(held)
+		mu.Unlock()
+		if parked+int(atomic.LoadInt64(&failN)) >= 127 {
+			break
+		}
+		time.Sleep(2 * time.Millisecond)
+	}
+	// the connection is full (its heartbeat may hold one of the ids): more requests are refused, and refused again
+	refused := 0
+	for k := 0; k < 6; k++ {
+		if err := sess.Query(fmt.Sprintf("EXTRA %d", k)).Exec(); err != nil {
+			refused++
+		}
+	}
+	mu.Lock()
+	hs, hc := held, heldConn
+	held, heldConn = nil, nil
+	for _, m := range inflight {
+		for k := range m {
+			delete(m, k)
+		}
+	}
+	mu.Unlock()
+	for k, rq := range hs {
+		hc[k].ReplyVoid(rq)
+	}
+	wg.Wait()
+	c.Add("wire_exhaustions", 1)
+	c.Add("wire_requests_parked", int64(parked))
+	c.Add("wire_requests_refused_while_full", int64(refused))
+	c.Eval(runner.H("c08wire", version, parked, refused), true)
+	mu.Lock()
+	defer mu.Unlock()
+	for _, p := range problems {
+		c.Violation("C08:wire:bad-stream-id", fmt.Sprintf("%s (protocol %d connection with %d requests parked, %d refused)", p, version, parked, refused), map[string]interface{}{"parked": parked, "refused": refused})
+		break
+	}
 }
